@@ -1,12 +1,25 @@
 import MJ.Model.Output
 /-! Line driver for C19.
 
-`prog<TAB>pid api clean chunks`   — `chunks` = comma separated hex strings (`-` = none): the chunks
-                                     of a clean run; `clean` = `ok` or `err` (the clean run ends with
-                                     an error that is not about the output)
-`case<TAB>pid api script`         — `script` = comma separated `A` `S<k>` `H` `E<kind>.<id>`, each
-                                     optionally `*<n>` (`-` = empty): behaviour of the sink per call
-Answer per case: `calls=<n> acc=<bytes> sum=<checksum of delivered> dig=<digest of the call log> res=<result>`.
+`prog<TAB>pid api clean ops [psyn]`
+   `ops`   = the REAL output operations of the clean run, recorded by the `verif_hooks::output`
+             log of the engine (root `Output` only), comma separated (`-` = none):
+               `w<r>:<hex>[!]`  write_str   `c<r>:<hex>[!]`  write_char     (`!` = returned Err)
+                  `<r>` = where the engine routed it: `s` base writer, `k<d>` capture buffer at
+                  stack depth d, `d<d>` discarded at stack depth d
+               `b0` begin_capture(Capture)  `b1` begin_capture(Discard)
+               `e:<hex>` end_capture → string   `e-` end_capture → undefined (discard)
+               `n0` include starts  `n1` super starts  `l` nested evaluation returned Ok
+               `m…` an `Emit` (ignored by the model)
+   `clean` = `ok` | `err` (the clean run ends with an error that is not about the output)
+   `psyn`  = optional structured program (see `parsePSyn`)
+   answer: `chunks=<sink calls of a clean run> bytes= sum= route=ok:<writes>:<captures>|bad@<i> flat=<na|same|erased-same|differ>`
+           (`route`: the model's capture stack routes every write where the engine did and pops the
+           value the engine popped; `flat`: `flatten (toProg psyn)` equals the real operations)
+`case<TAB>pid api script`   — `script` = comma separated `A` `S<k>` `H` `E<kind>.<id>`, each
+                              optionally `*<n>` (`-` = empty): behaviour of the sink per call
+   answer: `calls= acc= sum= dig= res= ops=<operations executed>`; for structured programs the
+   answer is computed by the big-step `exec` of the `Prog` term, otherwise by `run` on the real ops.
 -/
 open MJ MJ.Output
 
@@ -20,8 +33,157 @@ def unhexAux : List Char → List UInt8
 
 def unhex (s : String) : Bytes := unhexAux s.toList
 
-def parseChunks (s : String) : List Op :=
-  if s = "-" then [] else (s.splitOn ",").map (fun h => Op.write (.str (unhex h)))
+/-! ## annotated real operations -/
+
+inductive Route where
+  | base | cap (d : Nat) | disc (d : Nat)
+  deriving DecidableEq, Repr
+
+structure AOp where
+  op : Op
+  route : Option Route := none            -- writes: where the engine routed it
+  endVal : Option (Option Bytes) := none  -- end_capture: what the engine popped
+  deriving Repr
+
+def parseRoute (s : String) : Option Route :=
+  if s = "s" then some .base
+  else if s.startsWith "k" then (s.drop 1).toString.toNat?.map Route.cap
+  else if s.startsWith "d" then (s.drop 1).toString.toNat?.map Route.disc
+  else none
+
+/-- `none` = token without model counterpart (`m…`); `some none` = unparsable -/
+def parseOpTok (t : String) : Option (Option AOp) :=
+  if t.startsWith "m" then none
+  else if t = "b0" then some (some { op := .beginCapture false })
+  else if t = "b1" then some (some { op := .beginCapture true })
+  else if t = "e-" then some (some { op := .endCapture, endVal := some none })
+  else if t.startsWith "e:" then some (some { op := .endCapture, endVal := some (some (unhex (t.drop 2).toString)) })
+  else if t = "n0" then some (some { op := .enter .badInclude })
+  else if t = "n1" then some (some { op := .enter .evalBlock })
+  else if t = "l" then some (some { op := .leave })
+  else if t.startsWith "w" ∨ t.startsWith "c" then
+    let t' := if t.endsWith "!" then (t.dropEnd 1).toString else t
+    match (t'.drop 1).toString.splitOn ":" with
+    | [r, h] =>
+      match parseRoute r with
+      | some r =>
+        let bytes := unhex h
+        some (some { op := .write (if t.startsWith "w" then .str bytes else .chr bytes), route := some r })
+      | none => some none
+    | _ => some none
+  else some none
+
+def parseOps (s : String) : Option (List AOp) :=
+  if s = "-" then some [] else
+  (s.splitOn ",").foldr (fun t acc =>
+    match parseOpTok t, acc with
+    | none, acc => acc
+    | some (some a), some xs => some (a :: xs)
+    | _, _ => none) (some [])
+
+def routeOf (stack : List (Option Bytes)) : Route :=
+  match stack with
+  | [] => .base
+  | some _ :: _ => .cap stack.length
+  | none :: _ => .disc stack.length
+
+/-- walk the real operations with the model's `Output` and compare the engine's annotations -/
+def checkRoutes : List AOp → Out (List Chunk) → Nat → Nat → Nat → String
+  | [], _, _, nw, ne => s!"ok:{nw}:{ne}"
+  | a :: rest, o, i, nw, ne =>
+    match a.op with
+    | .write c =>
+      if a.route ≠ some (routeOf o.stack) then s!"bad@{i}"
+      else checkRoutes rest (o.write c).1 (i + 1) (nw + 1) ne
+    | .beginCapture d => checkRoutes rest (o.beginCapture d) (i + 1) nw ne
+    | .endCapture =>
+      match o.endCapture with
+      | .panic => s!"bad@{i}"
+      | .ok (o', v) =>
+        if a.endVal ≠ some v then s!"bad@{i}" else checkRoutes rest o' (i + 1) nw (ne + 1)
+    | _ => checkRoutes rest o (i + 1) nw ne
+
+/-! ## structured programs -/
+
+inductive Xf where
+  | id | upper | lower
+  deriving Repr
+
+def Xf.apply (x : Xf) (b : Bytes) : Bytes :=
+  match x with
+  | .id => b
+  | .upper => b.map fun c => if 97 ≤ c.toNat ∧ c.toNat ≤ 122 then UInt8.ofNat (c.toNat - 32) else c
+  | .lower => b.map fun c => if 65 ≤ c.toNat ∧ c.toNat ≤ 90 then UInt8.ofNat (c.toNat + 32) else c
+
+/-- first-order syntax of the structured programs the harness generates (as executed: includes,
+    macros, blocks and super calls already resolved into nested terms) -/
+inductive PSyn where
+  | text (s : Bytes)                      -- `T<hex>`        raw template text
+  | set (v : Nat) (body : List PSyn)      -- `S<v>(` … `)`   {% set v %}…{% endset %}
+  | use (v : Nat) (x : Xf)                -- `U<v><x>`       {{ v }} / {{ v|upper }} / {{ v|lower }}
+  | filt (x : Xf) (body : List PSyn)      -- `F<x>(` … `)`   capture the body, emit x(value): filter block, macro call, `super()|x`
+  | nest (w : Wrap) (body : List PSyn)    -- `N0(`/`N1(` … `)` include / super()
+  | disc (body : List PSyn)               -- `D(` … `)`      output of the child template of an `extends`
+  | loop (n : Nat) (body : List PSyn)     -- `L<n>(` … `)`   {% for _ in range(n) %}
+  | fail                                  -- `X`             a runtime error
+
+instance : Inhabited PSyn := ⟨.fail⟩
+instance : Inhabited Prog := ⟨.skip⟩
+
+def parseXf (s : String) : Xf := if s = "u" then .upper else if s = "l" then .lower else .id
+
+partial def parsePSeq : List String → List PSyn × List String
+  | [] => ([], [])
+  | ")" :: rest => ([], rest)
+  | t :: rest =>
+    let (item, rest') : PSyn × List String :=
+      if t.startsWith "T" then (.text (unhex (t.drop 1).toString), rest)
+      else if t = "X" then (.fail, rest)
+      else if t.startsWith "U" then
+        let body := (t.drop 1).toString
+        (.use ((body.dropEnd 1).toString.toNat?.getD 0) (parseXf (body.takeEnd 1).toString), rest)
+      else if t.startsWith "S" then
+        let (b, r) := parsePSeq rest
+        (.set (((t.drop 1).toString.dropEnd 1).toString.toNat?.getD 0) b, r)
+      else if t.startsWith "F" then
+        let (b, r) := parsePSeq rest
+        (.filt (parseXf ((t.drop 1).toString.dropEnd 1).toString) b, r)
+      else if t = "N0(" then let (b, r) := parsePSeq rest; (.nest .badInclude b, r)
+      else if t = "N1(" then let (b, r) := parsePSeq rest; (.nest .evalBlock b, r)
+      else if t = "D(" then let (b, r) := parsePSeq rest; (.disc b, r)
+      else if t.startsWith "L" then
+        let (b, r) := parsePSeq rest
+        (.loop (((t.drop 1).toString.dropEnd 1).toString.toNat?.getD 0) b, r)
+      else (.fail, rest)
+    let (items, rest'') := parsePSeq rest'
+    (item :: items, rest'')
+
+def parsePSyn (s : String) : List PSyn := (parsePSeq (s.splitOn ".")).1
+
+abbrev Env := List (Nat × Bytes)
+
+def Env.get (e : Env) (v : Nat) : Bytes := ((e.find? (·.1 == v)).map (·.2)).getD []
+
+/-- translation to the `Prog` of the model: `k` is what follows (given the environment then) -/
+partial def toProg (items : List PSyn) (env : Env) (k : Env → Prog) : Prog :=
+  match items with
+  | [] => k env
+  | .text s :: rest => .seq (.emit (.str s)) (toProg rest env k)
+  | .use v x :: rest => .seq (.emit (.str (x.apply (env.get v)))) (toProg rest env k)
+  | .fail :: _ => .fail 0
+  | .set v body :: rest =>
+    .capture false (toProg body env fun _ => .skip) fun val => toProg rest ((v, val.getD []) :: env) k
+  | .filt x body :: rest =>
+    .capture false (toProg body env fun _ => .skip) fun val =>
+      .seq (.emit (.str (x.apply (val.getD [])))) (toProg rest env k)
+  | .nest w body :: rest => .seq (.nested w (toProg body env fun _ => .skip)) (toProg rest env k)
+  | .disc body :: rest => .capture true (toProg body env fun _ => .skip) fun _ => toProg rest env k
+  | .loop n body :: rest =>
+    toProg ((List.replicate n body).flatten ++ rest) env k
+
+def toProgTop (items : List PSyn) : Prog := toProg items [] fun _ => .skip
+
+/-! ## sink scripts -/
 
 def kindOf (s : String) : Option IoKind :=
   if s = "bp" then some .brokenPipe else if s = "ot" then some .other
@@ -64,6 +226,8 @@ def parseScript (s : String) : Option (List Beh) :=
     | some xs, some ys => some (xs ++ ys)
     | _, _ => none) (some [])
 
+/-! ## answers -/
+
 def modP : Nat := 4294967291
 
 def sumBytes (bs : Bytes) : Nat := bs.foldl (fun s b => (s * 31 + b.toNat + 1) % modP) 0
@@ -83,38 +247,80 @@ def showRes : Chk (Except Err Unit) → String
   | .ok (.error (.writeFailure none)) => "wfnone"
   | .ok (.error _) => "other"
 
-def answer (ops : List Op) (script : List Beh) : String :=
-  let o := renderTo ops script
-  let d := delivered o.calls
-  s!"calls={o.calls.length} acc={d.length} sum={sumBytes d} dig={digest o.calls} res={showRes o.result}"
+/-- number of operations the evaluation loop executes (the one that stops it included) -/
+def countExec : List Op → St WriteWrapper → Nat → Nat
+  | [], _, n => n
+  | op :: ops, st, n =>
+    match step op st with
+    | (st', none) => countExec ops st' (n + 1)
+    | (_, some _) => n + 1
 
-partial def loop (h : IO.FS.Stream) (out : IO.FS.Stream) (ops : List Op) : IO Unit := do
+structure Cur where
+  ops : List Op := []
+  nReal : Nat := 0            -- number of real operations (without the synthetic `fail`)
+  prog : Option Prog := none
+
+def answer (cur : Cur) (script : List Beh) : String :=
+  let o := match cur.prog with
+    | some p => renderProgTo p script
+    | none => renderTo cur.ops script
+  let d := delivered o.calls
+  let n := min (countExec cur.ops (St.init ⟨script, [], none⟩) 0) cur.nReal
+  s!"calls={o.calls.length} acc={d.length} sum={sumBytes d} dig={digest o.calls} res={showRes o.result} ops={n}"
+
+/-- `clean`: the real run completed (otherwise the real operations, ending with the failure, only
+    have to be a prefix of the flattening: nothing after the failure is executed) -/
+def flatVerdict (p : Prog) (real : List Op) (clean : Bool) : String :=
+  let f := flatten p
+  let eq (a b : List Op) : Bool := if clean then a == b else b.isPrefixOf a
+  if eq f real then "same"
+  else if eq (erase 0 f) (erase 0 real) then "erased-same"
+  else "differ"
+
+partial def loop (h : IO.FS.Stream) (out : IO.FS.Stream) (cur : Cur) : IO Unit := do
   let line ← h.getLine
   if line.isEmpty then return ()
   let line := (line.dropEndWhile (· == '\n')).toString
   let fields := line.splitOn "\t"
   match fields with
   | "prog" :: key :: _ =>
-    match key.splitOn " " with
-    | [_pid, _api, clean, chunks] =>
-      let ops := parseChunks chunks ++ (if clean = "ok" then [] else [Op.fail 0])
-      let o := renderString ops
-      out.putStrLn s!"prog\t{key}\tchunks={(chunksOf ops).length} bytes={o.buf.length} sum={sumBytes o.buf}"
-      loop h out ops
+    let parts := key.splitOn " "
+    match parts with
+    | _pid :: _api :: clean :: opsS :: more =>
+      match parseOps opsS with
+      | some aops =>
+        let real := aops.map (·.op)
+        let ops := real ++ (if clean = "ok" then [] else [Op.fail 0])
+        let o := renderString ops
+        let route := checkRoutes aops ⟨[], []⟩ 0 0 0
+        let prog := match more with
+          | [ps] => if ps = "-" then none else some (toProgTop (parsePSyn ps))
+          | _ => none
+        let flat := match prog with
+          | some p => flatVerdict p ops (clean = "ok")
+          | none => "na"
+        out.putStrLn s!"prog\t{key.take 60}\tchunks={(renderTo ops []).calls.length} bytes={o.buf.length} sum={sumBytes o.buf} route={route} flat={flat}"
+        loop h out { ops := ops, nReal := real.length, prog := prog }
+      | none =>
+        out.putStrLn s!"prog\t{key.take 60}\tbad-ops"
+        loop h out cur
     | _ =>
-      out.putStrLn s!"prog\t{key}\tbad-case"
-      loop h out ops
+      out.putStrLn s!"prog\t{key.take 60}\tbad-case"
+      loop h out cur
   | "case" :: key :: _ =>
     match key.splitOn " " with
     | [_pid, _api, script] =>
       match parseScript script with
-      | some sc => out.putStrLn s!"case\t{key}\t{answer ops sc}"
+      | some sc => out.putStrLn s!"case\t{key}\t{answer cur sc}"
       | none => out.putStrLn s!"case\t{key}\tbad-script"
     | _ => out.putStrLn s!"case\t{key}\tbad-case"
-    loop h out ops
+    loop h out cur
+  | tag :: key :: _ =>
+    out.putStrLn s!"{tag}\t{key.take 60}\t-"
+    loop h out cur
   | _ =>
-    out.putStrLn s!"?\t{line}\tbad-line"
-    loop h out ops
+    out.putStrLn s!"?\t{line.take 60}\tbad-line"
+    loop h out cur
 
 def main : IO Unit := do
-  loop (← IO.getStdin) (← IO.getStdout) []
+  loop (← IO.getStdin) (← IO.getStdout) {}
